@@ -61,7 +61,7 @@ pub struct Scenario {
     pub isolate: u8,
 }
 
-pub const RX: [(f64, f64); 5] = [(52.0, 4.0), (85.0, 10.0), (0.01, 179.9), (-33.9, 151.2), (40.0, -100.0)];
+pub const RX: [(f64, f64); 7] = [(52.0, 4.0), (85.0, 10.0), (0.01, 179.9), (-33.9, 151.2), (40.0, -100.0), (0.0, 0.0), (-89.0, -179.95)];
 pub const RANGES: [f64; 4] = [500.0, 50.0, 20000.0, 0.0];
 const ADDR: [u32; 5] = [0xabc001, 0x000a0b, 0x4840d6, 0xffffff, 0x7c0017];
 
@@ -95,7 +95,7 @@ fn kind_s() -> impl Strategy<Value = Kind> {
                 1 => Just([32, 32, 32, 32, 32, 32, 32, 1u8]),      // only the 8th character
                 1 => Just([0u8; 8]),                               // unassigned code 0 throughout
             ], 1u8..5).prop_map(|(codes, tc)| Kind::Ident { codes, tc }),
-        3 => (prop_oneof![6 => 1u8..3, 1 => 0u8..8], prop_oneof![1 => Just(0u16), 4 => 1u16..1024, 4 => prop_oneof![Just(121u16), Just(431)]], any::<bool>(), prop_oneof![1 => Just(0u16), 4 => 1u16..1024, 4 => prop_oneof![Just(121u16), Just(431)]], any::<bool>(), prop_oneof![1 => Just(0u16), 8 => 1u16..512], any::<bool>())
+        3 => (prop_oneof![6 => 1u8..3, 1 => 0u8..8], prop_oneof![1 => Just(0u16), 2 => prop_oneof![Just(1u16), Just(2), Just(1023)], 3 => 1u16..1024, 3 => prop_oneof![Just(121u16), Just(431)]], any::<bool>(), prop_oneof![1 => Just(0u16), 2 => prop_oneof![Just(1u16), Just(2), Just(1023)], 3 => 1u16..1024, 3 => prop_oneof![Just(121u16), Just(431)]], any::<bool>(), prop_oneof![1 => Just(0u16), 2 => prop_oneof![Just(1u16), Just(2), Just(511)], 6 => 1u16..512], any::<bool>())
             .prop_map(|(st, ew, ew_sign, ns, ns_sign, vr, vr_sign)| Kind::Velocity { st, ew, ew_sign, ns, ns_sign, vr, vr_sign }),
         9 => (any::<bool>(), prop_oneof![9u8..19, 20u8..23], alt_s(), possrc_s()).prop_map(|(odd, tc, alt, src)| Kind::Position { odd, tc, alt, src }),
         1 => (prop_oneof![Just(0u8), 5u8..9, 23u8..32], any::<u64>()).prop_map(|(tc, fill)| Kind::OtherMe { tc, fill }),
